@@ -6,9 +6,10 @@
    argument), runs of the completion callback, an error return; plus logical-clock stamps.
    Sequential cases are compared exactly with Model.LoginInbound.step_op; concurrent cases must
    be linearizable w.r.t. it (Base.Lin).
-   Finding 1 (known_findings.jsonl, C13-1): the completion callback is never cleared, so it runs
-   again whenever a later response empties the outstanding set.  [trigger] identifies those
-   histories; there the observation may equal the Impl model (VKnown 1) or the Spec model (VOk). *)
+   Finding C13-1 (the completion callback was never cleared and ran again whenever a later
+   response emptied the outstanding set) is FIXED in /repo (commit 7206740): the model of the code
+   is Impl, and a recurrence of the old behaviour is a violation like any other (completions
+   outnumber fires => the property predicate is false => VViolation).  No VKnown verdicts. *)
 From Coq Require Import List ZArith NArith Bool Arith.
 From Verif Require Import Base.Verdict Base.Lin Model.LoginInbound.
 Import ListNotations.
@@ -66,27 +67,6 @@ Definition project (ev : list event) : list out :=
 
 Definition spec_step (v : variant) (s : state) (o : op) : state * list out :=
   let '(s', ev) := step_op v s o in (s', project ev).
-
-(* ---------- trigger of finding 1, computed with the Spec model only ---------- *)
-
-Definition hits (s : state) (o : op) : bool :=
-  match o with
-  | OResponse id _ _ => match mfind id (outstanding s) with Some _ => true | None => false end
-  | _ => false
-  end.
-
-(* completed: the callback has run (Spec run); armed: Impl still holds a callback (set by the
-   fire, not removed by clearOnAllMessagesHandled since) *)
-Fixpoint trigger_from (s : state) (completed armed : bool) (os : list op) : bool :=
-  match os with
-  | [] => false
-  | o :: r =>
-      let '(s', ev) := step_op Spec s o in
-      let emptied := match outstanding s' with [] => true | _ => false end in
-      let armed' := match o with OFire => true | OClear => false | _ => armed end in
-      (completed && armed && hits s o && emptied)
-      || trigger_from s' (completed || (0 <? count_completion ev)) armed' r
-  end.
 
 (* ---------- the property's predicate on the observation alone ---------- *)
 
@@ -168,16 +148,8 @@ Definition lin_fuel : nat := 40.
 Definition judge (c : case) : verdict :=
   let s0 := init (pok c) 1 in
   let h := hist c in
-  let ok := holds_P c in
-  if concurrent c then
-    if check_history (spec_step Spec) outs_eqb lin_fuel s0 h then (if ok then VOk else VViolation)
-    else if negb ok && (fires h <? count_out is_completion (all_outs h))
-            && check_history (spec_step Impl) outs_eqb lin_fuel s0 h then VKnown 1
-    else VViolation
+  if negb (holds_P c) then VViolation
+  else if concurrent c then
+    (if check_history (spec_step Impl) outs_eqb lin_fuel s0 h then VOk else VViolation)
   else
-    let order := seq 0 (length h) in
-    let eq_spec := replay_okb (spec_step Spec) outs_eqb s0 h order in
-    let eq_impl := replay_okb (spec_step Impl) outs_eqb s0 h order in
-    if ok then (if eq_spec then VOk else VMismatch)
-    else if trigger_from s0 false false (map (fun x => c_op x) h) && eq_impl then VKnown 1
-    else VViolation.
+    (if replay_okb (spec_step Impl) outs_eqb s0 h (seq 0 (length h)) then VOk else VMismatch).
